@@ -94,6 +94,32 @@ def inside_shape(c, s):
     return 0 <= c < s
 
 
+def zero_like(s):
+    return tuple(zero_like(x) for x in s) if isinstance(s, tuple) else 0
+
+
+def inside_shape_lex(c, s):
+    """Weaker reading used for estimated shapes of tuple coordinates: the
+    library estimates max coordinate + 1 with the lexicographic maximum, so only
+    zero <= c < s under the ordering the library iterates with is demanded."""
+    if not isinstance(s, tuple):
+        return inside_shape(c, s)
+    try:
+        return zero_like(s) <= c < s
+    except TypeError:
+        return False
+
+
+def unnest(s, levels):
+    """(a, (b, c)) or (a, b, c) -> [a, b, c] the way an unflatten cuts a shape."""
+    out = []
+    for _ in range(levels):
+        out.append(s[0])
+        s = s[1] if len(s) == 2 else s[1:]
+    out.append(s)
+    return out
+
+
 def inside_range(c, rng):
     """start <= c < end under the ordering the library iterates with
     (lexicographic for tuple coordinates)."""
